@@ -28,6 +28,10 @@ def variants(full=True):
         # two register-dependent arguments in the same group (every one of them contributes wires)
         out.append((m, "pos2", (0, 1)))
         out.append((m, "kw2", (1, 2)))
+        if m in ((0,), (0, 1), (2, 0, 1)):
+            # keyword arguments called like the fields a node carries
+            out.append((m, "kwfields", ()))
+            out.append((m, "kwfields-reg", (1,)))
     return out
 
 
@@ -73,6 +77,10 @@ def op_args(kind, d):
         return [rr(d[:1]), 2, rr(d[1:])], {}
     if kind == "kw2":
         return [], {"a": rr(d[:1]), "b": rr(d[1:])}
+    if kind == "kwfields":
+        return [0.5], {"modes": [7, 8], "args": 2, "kwargs": 0.1, "op": "x"}
+    if kind == "kwfields-reg":
+        return [], {"modes": rr(d), "args": [1], "kwargs": 3}
     return [], {}
 
 
@@ -142,7 +150,10 @@ def _chunk(task):
         except Exception as e:  # noqa
             viol.add("C16/to_DiGraph-raises:" + type(e).__name__, {"seq": repr(seq)}, common.exc_sig(e))
             continue
-        r = check_graph(seq, g)
+        try:
+            r = check_graph(seq, g)
+        except (TypeError, ValueError, AttributeError, KeyError, IndexError) as e:
+            r = ("node-attributes-unreadable", "the graph's node data cannot be read as name/args/kwargs/modes: " + common.exc_sig(e))
         if any(wires(seq[i]) & wires(seq[j]) for i in range(N) for j in range(i)):
             nontrivial += 1
         if r is not None:
@@ -156,6 +167,10 @@ def loaded_cases():
     exprs = ["", "(q0)", "(2*q1)", "(q0-q2)", "(k=q0)", "(1, k=q0+q2)", "()"]
     for e1, e2 in itertools.product(exprs, repeat=2):
         for m1, m2 in itertools.product(["0", "[0, 1]", "2"], ["1", "[2, 0]", "0"]):
+            texts.append("name g\nversion 1.0\n\nG0%s | %s\nG1%s | %s\n" % (e1, m1, e2, m2))
+    # keyword arguments called like the fields a node carries
+    for e1, e2 in itertools.product(["(0.7, modes=[1, 0])", "(args=2, kwargs=0.1)", "(q0, kwargs=q1)", "(modes=q0)"], ["", "(q0)", "(k=q1)"]):
+        for m1, m2 in (("0", "1"), ("[0, 1]", "0"), ("2", "[2, 0]")):
             texts.append("name g\nversion 1.0\n\nG0%s | %s\nG1%s | %s\n" % (e1, m1, e2, m2))
     # registers with two digits, on programs over modes 0..12 (q12 must not be taken for q1, nor q10 for q1/q0)
     exprs2 = ["(q12)", "(q10-q1)", "(k=q12*2)", "(q1)", "(q2, k=q10)", ""]
@@ -192,6 +207,108 @@ def _loaded(text):
     return None
 
 
+# ---------------------------------------------------------------------------------------------------------
+# call sequences: the graph of a program is a function of that program as it is NOW - whatever graphs were built
+# before, of it or of the template it was made from, and whatever was done to it in between
+
+SEQ_SCRIPTS = collections.OrderedDict([
+    ("template-regs", "name s\nversion 1.0\n\nMeasureX | 0\nDgate(q0, {phi}) | 1\nBSgate({phi}, 0.1) | [1, 2]\nSgate({r}) | 0\nVac | 2\n"),
+    ("template-kw", "name s\nversion 1.0\n\nG(k={a}) | 0\nH({a}*2, l=[{b}, 1]) | [0, 1]\nK | 1\nG(q1, k={b}) | 2\n"),
+    ("plain", "name s\nversion 1.0\n\nG(1) | 0\nH | [0, 1]\nMeasureX | 1\nK(2*q1) | 2\nG | 0\n"),
+])
+SEQ_VALS = [{"phi": -0.75, "r": 0.5, "a": 1.5, "b": -2.0}, {"phi": 0.25, "r": 3.0, "a": -0.5, "b": 4.0}]
+SEQ_STEPS = ["graphT", "matchTI", "inst1", "inst2", "graphI", "dumpsT", "append", "remodes", "graphT2"]
+
+
+def graph_vs_program(g, P):
+    """node i carries operation i of P as it is now; edges forward; reachability = reference on P's current wires"""
+    import networkx as nx
+    from bbv.core import observe
+    ops = P.operations
+    N = len(ops)
+    if sorted(g.nodes()) != list(range(N)):
+        return ("nodes", "nodes %r for %d operations" % (sorted(g.nodes()), N))
+    seq = []
+    for i, o in enumerate(ops):
+        nd = g.nodes[i]
+        want = (o["op"], observe.canon(list(o.get("args", []))), observe.canon(dict(o.get("kwargs", {}))), tuple(o["modes"]))
+        try:
+            got = (nd.get("name"), observe.canon(list(nd.get("args", []))), observe.canon(dict(nd.get("kwargs", {}))), tuple(nd.get("modes", ())))
+        except Exception as e:  # noqa
+            return ("node-attributes", "node %d unreadable: %s; raw %r" % (i, common.exc_sig(e), dict(nd)))
+        if got != want:
+            return ("node-attributes", "node %d carries %r, operation %d is %r" % (i, got, i, want))
+        regs = set()
+        for v in list(o.get("args", [])) + list(o.get("kwargs", {}).values()):
+            for x in (v if isinstance(v, list) else [v]):
+                if type(x).__name__ == "RegRefTransform":
+                    regs |= set(int(r) for r in x.regrefs)
+        seq.append((tuple(o["modes"]), "x", tuple(sorted(regs))))
+    if any(not i < j for i, j in g.edges()):
+        return ("edge-direction", repr(sorted(g.edges())))
+    R = reference(seq)
+    for i in range(N):
+        for j in range(N):
+            if i != j and nx.has_path(g, i, j) != R[i][j]:
+                return ("reachability", "has_path(%d,%d) != reference %r; edges %r" % (i, j, R[i][j], sorted(g.edges())))
+    return None
+
+
+@common.guarded("C16")
+def _sequence(task):
+    from blackbird.utils import to_DiGraph, match_template
+    key, steps = task
+    st, T = common.loads(SEQ_SCRIPTS[key])
+    if st == "exc":
+        return ("C16/sequence:script-does-not-load", common.exc_sig(T))
+    insts = []
+    tmpl = T.is_template()
+    for k, step in enumerate(steps):
+        if step in ("graphT", "graphT2"):
+            g = to_DiGraph(T)
+            r = graph_vs_program(g, T)
+            if r:
+                return ("C16/sequence:%s" % r[0], "after %r on %s: graph of the program: %s" % (list(steps[:k + 1]), key, r[1]))
+        elif step in ("inst1", "inst2"):
+            if tmpl:
+                v = SEQ_VALS[0 if step == "inst1" else 1]
+                insts.append(T(**{n: v[n] for n in T.parameters}))
+        elif step == "graphI":
+            for I in insts:
+                r = graph_vs_program(to_DiGraph(I), I)
+                if r:
+                    return ("C16/sequence:%s" % r[0], "after %r on %s: graph of an instance: %s" % (list(steps[:k + 1]), key, r[1]))
+        elif step == "matchTI":
+            if tmpl and insts:
+                try:
+                    match_template(T, insts[-1])
+                except Exception:  # noqa  (C17's subject)
+                    pass
+        elif step == "dumpsT":
+            common.dumps(T)
+        elif step == "append":
+            for P in [T] + insts:
+                P.operations.append({"op": "New", "args": [7], "kwargs": {}, "modes": [0, 2]})
+        elif step == "remodes":
+            for P in [T] + insts:
+                P.operations[0]["modes"] = [2]
+    # finally every object once more
+    for P in [T] + insts:
+        r = graph_vs_program(to_DiGraph(P), P)
+        if r:
+            return ("C16/sequence:%s" % r[0], "after %r on %s (final): %s" % (list(steps), key, r[1]))
+    return None
+
+
+def sequence_tasks(depth):
+    out = []
+    for key in SEQ_SCRIPTS:
+        for n in range(1, depth + 1):
+            for steps in itertools.product(SEQ_STEPS, repeat=n):
+                out.append((key, steps))
+    return out
+
+
 def run(ctx):
     Vs = common.Violations(keep=5)
     total = nontrivial = 0
@@ -218,7 +335,12 @@ def run(ctx):
     for t, r in zip(texts, pool.pmap(_loaded, texts, chunk=20)):
         if r is not None and r != "TIMEOUT":
             Vs.add(r[0], {"text": t}, r[1])
-    cov = {"evaluations": total + len(texts), "distinct_nontrivial": nontrivial,
+    seqs = sequence_tasks(3 if ctx.quick else 4)
+    for tk, r in zip(seqs, pool.pmap(_sequence, seqs, chunk=40)):
+        if r is not None and r != "TIMEOUT":
+            Vs.add(r[0], {"sequence": repr(tk)}, r[1])
+    bounds.append({"family": "call sequences: ALL sequences of <= %d steps over %r on %d scripts; after every graph step, and at the end for the program and every instance, the graph must carry the object's current operations and the reference reachability" % (3 if ctx.quick else 4, SEQ_STEPS, len(SEQ_SCRIPTS)), "sequences": len(seqs)})
+    cov = {"evaluations": total + len(texts) + len(seqs), "distinct_nontrivial": nontrivial,
            "rule": "ALL sequences of n operations over the operation alphabet (mode subsets of {0,1,2} incl. ordered 2- and 3-mode variants x register dependencies {none,{q0},{q1},{q0,q2}} positional or keyword x with/without args key) "
                    "for the n listed in `bounds`; for n<=5 every topological order of the graph is enumerated; plus %d two-statement scripts loaded from text. non-trivial = >= 2 operations sharing a wire; distinct by construction" % len(texts),
            "samples": samples, "exhaustive": True, "bounds": bounds, "loaded_scripts": len(texts)}
@@ -231,6 +353,9 @@ def replay(case):
     if "text" in case:
         r = _loaded(case["text"])
         return (r is not None), repr(r)
+    if "sequence" in case:
+        r = _sequence(ast.literal_eval(case["sequence"]))
+        return (r is not None), repr(r)
     if case["seq"] == "chunk":
         return False, "n/a"
     seq = ast.literal_eval(case["seq"])
@@ -238,5 +363,8 @@ def replay(case):
         g = to_DiGraph(mk(seq))
     except Exception as e:  # noqa
         return True, common.exc_sig(e)
-    r = check_graph(seq, g)
+    try:
+        r = check_graph(seq, g)
+    except (TypeError, ValueError, AttributeError, KeyError, IndexError) as e:
+        r = ("node-attributes-unreadable", common.exc_sig(e))
     return (r is not None), repr(r)
